@@ -171,6 +171,8 @@ func checkC08(c *Ctx) {
 	// frames of failed inner calls are cut back completely before a handler runs - otherwise the caller's pop
 	// removes a stale frame and 其 / the module of the CALLER are those of the callee (same fact as C09.unwind)
 	borrowRule(c, "C09", "C09.unwind", "C08.unwind")
+	// property writes on one object never affect another: every assignment target (variable, element, property) stores a copy
+	borrowRule(c, "C07", "C07.bind", "C08.bind")
 
 	// ---- C08.args + C08.result
 	if f := u.ssaFunc("pkg/exec", "evalFunctionCall"); f != nil {
@@ -774,6 +776,57 @@ func checkC09(c *Ctx) {
 		R.check(okSame && nTA >= 1, "C09.channel", "pkg/value.Function.Exec:signal-unchanged", u.pos(fe.Pos()), "a signal leaves the function as the same error value", "a signal leaving a function is replaced by another error value: an exception of a user-defined class loses its class on the way out")
 	}
 
+	// ---- C09.ctorresult: what 抛出 raises is what the class constructor returned (the predefined 异常 constructor
+	// returns the *Exception carrying the message): ClassModel.Construct hands the constructor's result on
+	if g := u.ssaFunc("pkg/value", "ClassModel.Construct"); g != nil {
+		okR, nR := true, 0
+		gTests := nilTests(g)
+		for _, b := range g.Blocks {
+			ret, isRet := b.Instrs[len(b.Instrs)-1].(*ssa.Return)
+			if !isRet || len(ret.Results) != 2 || !normalReturn(g, ret, gTests) {
+				continue
+			}
+			nR++
+			fromCtor := false
+			for _, src := range allSources(retValue(ret, 0)) {
+				var call *ssa.Call
+				switch x := src.(type) {
+				case *ssa.Call:
+					call = x
+				case *ssa.Extract:
+					call, _ = x.Tuple.(*ssa.Call)
+				}
+				if call != nil && call.Call.StaticCallee() == nil && !call.Call.IsInvoke() {
+					fromCtor = true
+				}
+			}
+			if !fromCtor {
+				okR = false
+			}
+		}
+		R.check(okR && nR >= 1, "C09.channel", "pkg/value.ClassModel.Construct:constructor-result", u.pos(g.Pos()), "Construct yields what the constructor returned", "Construct ignores the element returned by the class constructor: 抛出异常：“…” raises a property-less object instead of the exception value the predefined constructor built, so 其内容 fails inside the handler and an uncaught exception ends the program without its message")
+	}
+	// the message of an uncaught exception is shown as it is: it is never used as a printf format
+	for _, name := range []string{"WrapRuntimeError"} {
+		if g := u.ssaFunc("pkg/exec", name); g != nil {
+			bad := ""
+			for _, in := range instrsOf(g) {
+				call, isCall := in.(*ssa.Call)
+				if !isCall {
+					continue
+				}
+				n := u.callName(call)
+				if n != "fmt.Errorf" && n != "fmt.Sprintf" {
+					continue
+				}
+				if _, isConst := call.Call.Args[0].(*ssa.Const); !isConst {
+					bad = u.pos(call.Pos())
+				}
+			}
+			R.check(bad == "", "C09.channel", "pkg/exec."+name+":message-verbatim", u.pos(g.Pos()), "no text of the program is used as a format string", "the exception's message is used as a printf format at "+bad+": every % in it is garbled (折扣50%已失效 -> 折扣50%!已(MISSING)失效), the program no longer ends with the exception's message")
+		}
+	}
+
 	// ---- C09.match
 	pushes := u.callsNamed(f, "pkg/runtime.VM.PushCallFrame")
 	frames := u.callsNamed(f, "pkg/runtime.NewExceptionCallFrame")
@@ -793,12 +846,17 @@ func checkC09(c *Ctx) {
 		if !ok || len(pushes) != 1 {
 			continue
 		}
-		if bo, ok := ifi.Cond.(*ssa.BinOp); ok && bo.Op == token.EQL && isStringType(bo.X.Type()) {
+		if bo, ok := ifi.Cond.(*ssa.BinOp); ok && (bo.Op == token.EQL || bo.Op == token.NEQ) && isStringType(bo.X.Type()) {
 			lit := func(v ssa.Value) bool {
 				call, ok := v.(*ssa.Call)
 				return ok && call.Call.IsInvoke() && call.Call.Method.Name() == "GetLiteral" || (ok && u.callName(call) == "pkg/runtime.IDName.GetLiteral")
 			}
-			if (lit(bo.X) || lit(bo.Y)) && b.Succs[0].Dominates(pushes[0].Block()) {
+			// the edge on which the names are equal: true edge of ==, false edge of != (guard-clause form)
+			eq := b.Succs[0]
+			if bo.Op == token.NEQ {
+				eq = b.Succs[1]
+			}
+			if (lit(bo.X) || lit(bo.Y)) && (eq.Dominates(pushes[0].Block()) || edgeDominates(b, eq, pushes[0].Block())) {
 				okCmp = true
 			}
 		}
